@@ -1549,12 +1549,14 @@ fn interpolate_string(
         let ast =
             match parser.parse(&mut lexer) {
                 Ok(v) => v,
-                Err(e) => return new_loc_err(
-                    Error::InterpolateStringParseFailed{
-                        source_str: format!("{e:?}"),
-                    },
-                    slot_col,
-                ),
+                Err(e) => {
+                    let (_, source_str) = crate::render_parse_error(e);
+
+                    return new_loc_err(
+                        Error::InterpolateStringParseFailed{source_str},
+                        slot_col,
+                    );
+                },
             };
 
         // We catch the evaluation error manually so that we can modify the
